@@ -15,7 +15,7 @@ template <class T> static void run_T(Choice &c, Ctx &cx)
     int nsys = 1 + (int)c.below(3), nuser = 1 + (int)c.below(4);
     for (int i = 0; i < nsys; ++i) { StorageCfg s; s.fill = fills[c.below(8)]; cfgs.push_back(s); }
     std::vector<unsigned> userkinds; std::vector<unsigned> userextra;
-    for (int i = 0; i < nuser; ++i) { StorageCfg s; s.fill = fills[c.below(8)]; s.lwork = -1; s.misalign = c.chance(128) ? 4 : 0; s.workfill = c.u8(); userkinds.push_back(c.below(5)); userextra.push_back(c.u16()); cfgs.push_back(s); }
+    for (int i = 0; i < nuser; ++i) { StorageCfg s; s.fill = fills[c.below(8)]; s.lwork = -1; s.misalign = pick_misalign(c.chance(128), cx); s.workfill = c.u8(); userkinds.push_back(c.below(5)); userextra.push_back(c.u16()); cfgs.push_back(s); }
     cx.hash = fnv1a(c.d, c.consumed(), 0xC07ULL ^ ((uint64_t)Tr<T>::letter << 32));
     if (cx.dump) { cx.d(fmt("%s m=%d n=%d", P.ilu ? "gsitrf" : "gstrf", P.m, P.n)); cx.d(opts_str(P.o, false)); if (P.ilu) cx.d(ilu_str(P.io)); cx.d(gmat_str(G, Tr<T>::is_complex)); }
     cx.label(P.ilu ? "factor=ILU" : "factor=LU"); if (P.m > P.n) cx.label("tall");
